@@ -96,14 +96,14 @@ impl MemoryCacheEntryInner {
 /// Uses DashMap for concurrent access and implements various eviction policies
 /// optimized for NGDP workload patterns.
 pub struct MemoryCache<K: CacheKey> {
-    /// The main storage using DashMap for concurrent access
-    storage: DashMap<K, Arc<MemoryCacheEntryInner>>,
+    /// The main storage using DashMap for concurrent access (shared with the cleanup task)
+    storage: Arc<DashMap<K, Arc<MemoryCacheEntryInner>>>,
     /// Cache configuration
     config: MemoryCacheConfig,
-    /// Current number of entries (atomic for fast access)
-    entry_count: AtomicUsize,
-    /// Current memory usage in bytes (atomic for fast access)
-    memory_usage: AtomicU64,
+    /// Current number of entries (atomic for fast access, shared with the cleanup task)
+    entry_count: Arc<AtomicUsize>,
+    /// Current memory usage in bytes (atomic for fast access, shared with the cleanup task)
+    memory_usage: Arc<AtomicU64>,
     /// High-performance metrics collector
     metrics: Arc<AtomicCacheMetrics>,
     /// Background cleanup task handle
@@ -117,14 +117,14 @@ impl<K: CacheKey + 'static> MemoryCache<K> {
             .validate()
             .map_err(CacheError::InvalidConfiguration)?;
 
-        let storage = DashMap::with_capacity(config.max_entries.min(1024));
+        let storage = Arc::new(DashMap::with_capacity(config.max_entries.min(1024)));
         let metrics = Arc::new(AtomicCacheMetrics::new());
 
         Ok(Self {
             storage,
             config,
-            entry_count: AtomicUsize::new(0),
-            memory_usage: AtomicU64::new(0),
+            entry_count: Arc::new(AtomicUsize::new(0)),
+            memory_usage: Arc::new(AtomicU64::new(0)),
             metrics,
             cleanup_handle: None,
         })
@@ -144,7 +144,11 @@ impl<K: CacheKey + 'static> MemoryCache<K> {
 
     /// Start background cleanup task for expired entries
     fn start_cleanup_task(&mut self, cleanup_interval: Duration) {
-        let storage = self.storage.clone();
+        // Share the live map and counters with the task: `DashMap::clone` is a deep copy, so a
+        // task working on a clone never sees (or removes) anything stored afterwards.
+        let storage = Arc::clone(&self.storage);
+        let entry_count = Arc::clone(&self.entry_count);
+        let memory_usage = Arc::clone(&self.memory_usage);
         let metrics = Arc::clone(&self.metrics);
 
         let handle = tokio::spawn(async move {
@@ -167,7 +171,10 @@ impl<K: CacheKey + 'static> MemoryCache<K> {
 
                 // Remove expired entries
                 for key in expired_keys {
-                    if let Some((_, entry)) = storage.remove(&key) {
+                    // Only if still expired: the key may have been written again meanwhile
+                    if let Some((_, entry)) = storage.remove_if(&key, |_, e| e.is_expired()) {
+                        entry_count.fetch_sub(1, Ordering::Relaxed);
+                        memory_usage.fetch_sub(entry.size_bytes as u64, Ordering::Relaxed);
                         removed_count += 1;
                         freed_bytes += entry.size_bytes;
                     }
